@@ -153,8 +153,8 @@ theorem Below.change_sel {P : Prog} {A : Array Anns} {sel sel' : Option SelectSt
     ∀ {rest : List Frame} {sb lb : Nat},
       (∀ st, sel = some st → rest.length ≤ st.frame) →
       (∀ st, sel' = some st → rest.length ≤ st.frame) →
-      Below P A sel rest sb lb → Below P A sel' rest sb lb
-  | [], _, _, _, _, _ => trivial
+      Below P A s0 sel rest sb lb → Below P A s0 sel' rest sb lb
+  | [], _, _, _, _, h => h
   | g :: rest, sb, lb, h1, h2, h => by
     obtain ⟨fn, a, i, sbg, hat, hl, hcase, hrec⟩ := h
     refine ⟨fn, a, i, sbg, hat, hl, ?_, ?_⟩
@@ -218,14 +218,14 @@ theorem top_of_flow {P : Prog} {A : Array Anns} (hA : AllChecked P A) {f : Frame
 /-! ## Preservation, piece by piece -/
 
 /-- Assemble `Inv` for a process with at least one frame. -/
-theorem Inv.mk' {P : Prog} {A : Array Anns} {p : Proc} {f : Frame} {rest : List Frame} {sb : Nat}
+theorem Inv.intro {P : Prog} {A : Array Anns} {p : Proc} {f : Frame} {rest : List Frame} {sb : Nat}
     (hfr : p.frames = f :: rest)
     (hsw : AllWF P p.stack) (hlw : AllWF P p.locals)
     (hselw : ∀ st, p.selectState = some st → AllWF P st.sources)
     (hselb : ∀ st, p.selectState = some st → st.frame < rest.length + 1)
     (hres : p.result = none)
     (htop : TopShape P A f rest.length sb p.stack.length p.locals.length p.park p.selectState)
-    (hbelow : Below P A p.selectState rest sb f.localsBase) : Inv P A p where
+    (hbelow : Below P A s0 p.selectState rest sb f.localsBase) : Inv P A s0 p where
   stackWF := hsw
   localsWF := hlw
   selWF := hselw
@@ -235,40 +235,41 @@ theorem Inv.mk' {P : Prog} {A : Array Anns} {p : Proc} {f : Frame} {rest : List 
 
 /-- Unpack `Inv` for a process with at least one frame. -/
 theorem Inv.unpack {P : Prog} {A : Array Anns} {p : Proc} {f : Frame} {rest : List Frame}
-    (h : Inv P A p) (hfr : p.frames = f :: rest) :
+    (h : Inv P A s0 p) (hfr : p.frames = f :: rest) :
     p.result = none ∧ ∃ sb,
       TopShape P A f rest.length sb p.stack.length p.locals.length p.park p.selectState ∧
-      Below P A p.selectState rest sb f.localsBase := by
+      Below P A s0 p.selectState rest sb f.localsBase := by
   have := h.shape
   rw [hfr] at this
   exact this
 
-theorem inv_entry {P : Prog} {A : Array Anns} (hA : AllChecked P A) {p : Proc} (h : EntryWF P p) :
-    Inv P A p := by
+theorem inv_entry {P : Prog} {A : Array Anns} (hA : AllChecked P A) {p : Proc} (h : EntryWF P s0 p) :
+    Inv P A s0 p := by
   obtain ⟨f, fn, hfr, hc, hfn, hcc, hl⟩ := h.frame
   have hC := checked_of hA hfn
   have hne := h.stack
   cases hst : p.stack with
-  | nil => exact absurd hst hne
+  | nil => simp [hst] at hne
   | cons v s =>
+    have hslen : s.length = s0 := by simp [hst] at hne; exact hne
     have htop := top_of_flow (k := 0) (sb := s.length) (sLen := p.stack.length) (lLen := p.locals.length)
       (park := p.park) (sel := p.selectState) hA hfn hcc hC.entry (by simp [hst]) (by simpa using hl)
       h.park (by simp [SelNotAt, h.sel])
     have hf : ({ f with counter := 0 } : Frame) = f := by cases f; simp_all
     rw [hf] at htop
-    exact Inv.mk' (rest := []) hfr h.stackWF h.localsWF (by simp [h.sel]) (by simp [h.sel]) h.result htop trivial
+    exact Inv.intro (rest := []) hfr h.stackWF h.localsWF (by simp [h.sel]) (by simp [h.sel]) h.result htop hslen
 
 /-- A simple instruction from a `normal` top frame. -/
 theorem run_simple {P : Prog} {A : Array Anns} (hA : AllChecked P A) {O : Oracle} {p : Proc}
     {f : Frame} {rest : List Frame} {fn : Function} {a : Ann} {i : Instr} {sb : Nat}
-    (hinv : Inv P A p) (hfr : p.frames = f :: rest) (hres : p.result = none)
+    (hinv : Inv P A s0 p) (hfr : p.frames = f :: rest) (hres : p.result = none)
     (hat : FrameAt P A f fn a i) (hsimple : i.simple = true)
     (hl : f.localsBase + a.locals ≤ p.locals.length) (hs : p.stack.length = sb + a.height)
     (hpark : p.park = .none) (hsel : SelNotAt p.selectState rest.length)
-    (hbelow : Below P A p.selectState rest sb f.localsBase) :
+    (hbelow : Below P A s0 p.selectState rest sb f.localsBase) :
     match stepInstr O P p i with
     | .error e => e.isStructural = false
-    | .ok (p', _) => Inv P A p' := by
+    | .ok (p', _) => Inv P A s0 p' := by
   obtain ⟨succs, htr, hflow⟩ := hat.transfer hA
   have hC := checked_of hA hat.hfn
   have h1 := simple_step_sound (O := O) hfr htr hs hl hsimple hC.small hat.lt_size.2
@@ -282,7 +283,7 @@ theorem run_simple {P : Prog} {A : Array Anns} (hA : AllChecked P A) {O : Oracle
     have htop := top_of_flow (f := f) (k := rest.length) (sb := sb) (sLen := p'.stack.length)
       (lLen := p'.locals.length) (park := p'.park) (sel := p'.selectState) hA hat.hfn hat.hcc
       (hflow s hsm) hst.stack hst.locals (by rw [hst.park, hpark]) (by rw [hst.sel]; exact hsel)
-    exact Inv.mk' hst.frames hwf.1 hwf.2 (by rw [hst.sel]; exact hinv.selWF)
+    exact Inv.intro hst.frames hwf.1 hwf.2 (by rw [hst.sel]; exact hinv.selWF)
       (by rw [hst.sel]; intro st h; have := hinv.selBound st h; rw [hfr] at this; simpa using this)
       (by rw [hst.result, hres]) htop (by rw [hst.sel]; exact hbelow)
 
@@ -306,14 +307,14 @@ theorem top_of_entry {P : Prog} {A : Array Anns} (hA : AllChecked P A) {fi lb cc
 
 theorem run_call {P : Prog} {A : Array Anns} (hA : AllChecked P A) {O : Oracle} (hO : OracleWF P O)
     {p : Proc} {f : Frame} {rest : List Frame} {fn : Function} {a : Ann} {sb : Nat}
-    (hinv : Inv P A p) (hfr : p.frames = f :: rest) (hres : p.result = none)
+    (hinv : Inv P A s0 p) (hfr : p.frames = f :: rest) (hres : p.result = none)
     (hat : FrameAt P A f fn a .call)
     (hl : f.localsBase + a.locals ≤ p.locals.length) (hs : p.stack.length = sb + a.height)
     (hpark : p.park = .none) (hsel : SelNotAt p.selectState rest.length)
-    (hbelow : Below P A p.selectState rest sb f.localsBase) :
+    (hbelow : Below P A s0 p.selectState rest sb f.localsBase) :
     match handleCall O P p with
     | .error e => e.isStructural = false
-    | .ok (p', _) => Inv P A p' := by
+    | .ok (p', _) => Inv P A s0 p' := by
   obtain ⟨succs, htr, hflow⟩ := hat.transfer hA
   obtain ⟨hh, rfl⟩ := transfer_call htr
   have hflow1 := hflow _ (List.mem_cons_self)
@@ -340,7 +341,7 @@ theorem run_call {P : Prog} {A : Array Anns} (hA : AllChecked P A) {O : Oracle} 
           have := hselb st h
           simp at hk
           omega
-        refine Inv.mk' (f := Frame.new fi p.locals.length caps.toList.length) (rest := f :: rest)
+        refine Inv.intro (f := Frame.new fi p.locals.length caps.toList.length) (rest := f :: rest)
           (sb := s'.length) (by simp [hfr]) ?_ ?_ hinv.selWF ?_ hres ?_ ?_
         · exact AllWF.cons_iff.mpr ⟨hparam, hsw''⟩
         · exact AllWF.append_iff.mpr ⟨hinv.localsWF, hcw⟩
@@ -359,7 +360,7 @@ theorem run_call {P : Prog} {A : Array Anns} (hA : AllChecked P A) {O : Oracle} 
           have htop := top_of_flow (f := f) (k := rest.length) (sb := sb) (sLen := (v :: s').length)
             (lLen := p.locals.length) (park := p.park) (sel := p.selectState) hA hat.hfn hat.hcc
             hflow1 (by simp; omega) (by simpa using hl) hpark hsel
-          refine Inv.mk' (f := { f with counter := f.counter + 1 }) (rest := rest) (sb := sb)
+          refine Inv.intro (f := { f with counter := f.counter + 1 }) (rest := rest) (sb := sb)
             (by simp [Proc.bump, hfr]) ?_ ?_ ?_ ?_ ?_ ?_ ?_
           · simpa using ⟨hv, hsw''⟩
           · simpa using hinv.localsWF
@@ -369,7 +370,7 @@ theorem run_call {P : Prog} {A : Array Anns} (hA : AllChecked P A) {O : Oracle} 
           · simpa using htop
           · simpa using hbelow
         | action =>
-          refine Inv.mk' (f := f) (rest := rest) (sb := sb) hfr ?_ hinv.localsWF hinv.selWF hselb hres ?_ hbelow
+          refine Inv.intro (f := f) (rest := rest) (sb := sb) hfr ?_ hinv.localsWF hinv.selWF hselb hres ?_ hbelow
           · exact hsw''
           · exact .effecting fn a hat hl (by simp; omega) rfl hsel
       | _ => simp [handleCall, hst, Err.isStructural]
@@ -392,14 +393,14 @@ theorem Frame.new_eq (fi lb cc : Nat) : Frame.new fi lb cc = ⟨fi, lb, cc, 0⟩
 
 theorem run_tailCall {P : Prog} {A : Array Anns} (hA : AllChecked P A)
     {p : Proc} {f : Frame} {rest : List Frame} {fn : Function} {a : Ann} {sb : Nat} {r : Bool}
-    (hinv : Inv P A p) (hfr : p.frames = f :: rest) (hres : p.result = none)
+    (hinv : Inv P A s0 p) (hfr : p.frames = f :: rest) (hres : p.result = none)
     (hat : FrameAt P A f fn a (.tailCall r))
     (hl : f.localsBase + a.locals ≤ p.locals.length) (hs : p.stack.length = sb + a.height)
     (hpark : p.park = .none) (hsel : SelNotAt p.selectState rest.length)
-    (hbelow : Below P A p.selectState rest sb f.localsBase) :
+    (hbelow : Below P A s0 p.selectState rest sb f.localsBase) :
     match handleTailCall P p r with
     | .error e => e.isStructural = false
-    | .ok (p', _) => Inv P A p' := by
+    | .ok (p', _) => Inv P A s0 p' := by
   obtain ⟨succs, htr, _⟩ := hat.transfer hA
   have hselb : ∀ st, p.selectState = some st → st.frame < rest.length + 1 := by
     intro st h; have := hinv.selBound st h; rw [hfr] at this; simpa using this
@@ -413,7 +414,7 @@ theorem run_tailCall {P : Prog} {A : Array Anns} (hA : AllChecked P A)
       rw [hst] at hsw
       simp only [handleTailCall, hst, hfr, ok, if_true]
       have hslen : s.length = sb := by simp [hst] at hs; omega
-      refine Inv.mk' (f := Frame.new f.functionIndex f.localsBase f.capturesCount) (rest := rest)
+      refine Inv.intro (f := Frame.new f.functionIndex f.localsBase f.capturesCount) (rest := rest)
         (sb := sb) rfl hsw (hinv.localsWF.take _) hinv.selWF hselb hres ?_ hbelow
       refine top_of_entry hA hat.hfn hat.hcc (by simp [hslen]) ?_ hpark hsel
       simp [List.length_take, hat.hcc]
@@ -434,7 +435,7 @@ theorem run_tailCall {P : Prog} {A : Array Anns} (hA : AllChecked P A)
         | fn fi caps =>
           obtain ⟨fn', hfn', hcl, hcw⟩ := Val.wf_fn_inv hfv
           simp only [handleTailCall, hst, hfn', hfr, ok, Bool.false_eq_true, if_false]
-          refine Inv.mk' (f := Frame.new fi f.localsBase caps.toList.length) (rest := rest)
+          refine Inv.intro (f := Frame.new fi f.localsBase caps.toList.length) (rest := rest)
             (sb := sb) rfl hsw' (AllWF.append_iff.mpr ⟨hinv.localsWF.take _, hcw⟩) hinv.selWF hselb hres ?_
             hbelow
           refine top_of_entry hA hfn' hcl (by simp [hslen]) ?_ hpark hsel
@@ -451,14 +452,14 @@ theorem transfer_spawn {P : Prog} {n caps pc : Nat} {a : Ann} {succs : List (Nat
 
 theorem run_spawn {P : Prog} {A : Array Anns} (hA : AllChecked P A)
     {p : Proc} {f : Frame} {rest : List Frame} {fn : Function} {a : Ann} {sb : Nat}
-    (hinv : Inv P A p) (hfr : p.frames = f :: rest) (hres : p.result = none)
+    (hinv : Inv P A s0 p) (hfr : p.frames = f :: rest) (hres : p.result = none)
     (hat : FrameAt P A f fn a .spawn)
     (hl : f.localsBase + a.locals ≤ p.locals.length) (hs : p.stack.length = sb + a.height)
     (hsel : SelNotAt p.selectState rest.length)
-    (hbelow : Below P A p.selectState rest sb f.localsBase) :
+    (hbelow : Below P A s0 p.selectState rest sb f.localsBase) :
     match handleSpawn p with
     | .error e => e.isStructural = false
-    | .ok (p', _) => Inv P A p' := by
+    | .ok (p', _) => Inv P A s0 p' := by
   obtain ⟨succs, htr, _⟩ := hat.transfer hA
   obtain ⟨hh, _⟩ := transfer_spawn htr
   have hselb : ∀ st, p.selectState = some st → st.frame < rest.length + 1 := by
@@ -476,7 +477,7 @@ theorem run_spawn {P : Prog} {A : Array Anns} (hA : AllChecked P A)
         cases fv with
         | fn fi caps =>
           simp only [handleSpawn, hr, hst, Bool.false_eq_true, if_false]
-          refine Inv.mk' (f := f) (rest := rest) (sb := sb) hfr ?_ hinv.localsWF hinv.selWF hselb hres ?_ hbelow
+          refine Inv.intro (f := f) (rest := rest) (sb := sb) hfr ?_ hinv.localsWF hinv.selWF hselb hres ?_ hbelow
           · exact (AllWF.cons_iff.mp (AllWF.cons_iff.mp hsw).2).2
           · refine .spawning fn a hat hl ?_ rfl hsel
             simp [hst] at hs ⊢
@@ -492,11 +493,11 @@ theorem transfer_select {P : Prog} {n caps pc : Nat} {a : Ann} {succs : List (Na
 
 theorem run_pop {P : Prog} {A : Array Anns} (hA : AllChecked P A)
     {p : Proc} {f : Frame} {rest : List Frame} {sb : Nat}
-    (hinv : Inv P A p) (hfr : p.frames = f :: rest) (hres : p.result = none)
+    (hinv : Inv P A s0 p) (hfr : p.frames = f :: rest) (hres : p.result = none)
     (hs : p.stack.length = sb + 1) (hl : f.localsBase ≤ p.locals.length)
     (hpark : p.park = .none) (hsel : SelNotAt p.selectState rest.length)
-    (hbelow : Below P A p.selectState rest sb f.localsBase) :
-    Inv P A (popFrame p) := by
+    (hbelow : Below P A s0 p.selectState rest sb f.localsBase) :
+    Inv P A s0 (popFrame p) := by
   have hselb : ∀ st, p.selectState = some st → st.frame < rest.length + 1 := by
     intro st h; have := hinv.selBound st h; rw [hfr] at this; simpa using this
   have hselb' : ∀ st, p.selectState = some st → st.frame < rest.length := by
@@ -507,7 +508,7 @@ theorem run_pop {P : Prog} {A : Array Anns} (hA : AllChecked P A)
       cases h : p.selectState with
       | none => rfl
       | some st => have := hselb' st h; simp at this
-    have hne : p.stack ≠ [] := by intro h; simp [h] at hs
+    have hsb0 : sb = s0 := hbelow
     constructor
     · simpa [popFrame, hfr, hnone] using hinv.stackWF
     · simp only [popFrame, hfr, hnone]
@@ -517,7 +518,7 @@ theorem run_pop {P : Prog} {A : Array Anns} (hA : AllChecked P A)
     · simp [popFrame, hfr, hnone]
     · simp [popFrame, hfr, hnone]
     · simp [popFrame, hfr, hnone, hres]
-    · simp [popFrame, hfr, hnone, hpark, hne]
+    · simp [popFrame, hfr, hnone, hpark, hs, hsb0]
   | cons g r =>
     obtain ⟨fng, ag, ig, sbg, hatg, hlg, hcase, hrec⟩ := hbelow
     obtain ⟨succs, htr, hflow⟩ := hatg.transfer hA
@@ -534,7 +535,7 @@ theorem run_pop {P : Prog} {A : Array Anns} (hA : AllChecked P A)
         | none => simp
         | some st => have := hselg st hsel'; simp [this]
       rw [hpop]
-      refine Inv.mk' (f := { g with counter := g.counter + 1 }) (rest := r) (sb := sbg) rfl
+      refine Inv.intro (f := { g with counter := g.counter + 1 }) (rest := r) (sb := sbg) rfl
         hinv.stackWF (hinv.localsWF.take _) hinv.selWF ?_ hres ?_ hrec
       · intro st h; have := hselb' st h; simpa using this
       · exact top_of_flow (f := g) hA hatg.hfn hatg.hcc hflow1 (by simp; omega) (by simp [hlen]; omega)
@@ -547,14 +548,14 @@ theorem run_pop {P : Prog} {A : Array Anns} (hA : AllChecked P A)
         simp only [popFrame, hfr, hst]
         simp [hk, hpcst]
       rw [hpop]
-      refine Inv.mk' (f := g) (rest := r) (sb := sbg) rfl
+      refine Inv.intro (f := g) (rest := r) (sb := sbg) rfl
         hinv.stackWF (hinv.localsWF.take _) hinv.selWF ?_ hres ?_ hrec
       · intro st' h; have := hselb' st' h; simpa using this
       · exact .selecting fng ag hatg (by simp [hlen]; omega) st hst hk hpcst
           (Or.inr ⟨hrecv, by simp; omega, hpark⟩)
 
 theorem run_finish {P : Prog} {A : Array Anns} {p : Proc}
-    (hinv : Inv P A p) (hfr : p.frames = []) : Inv P A (finish p) := by
+    (hinv : Inv P A s0 p) (hfr : p.frames = []) : Inv P A s0 (finish p) := by
   have hsh := hinv.shape
   rw [hfr] at hsh
   obtain ⟨hpark, hne⟩ := hsh
@@ -564,7 +565,7 @@ theorem run_finish {P : Prog} {A : Array Anns} {p : Proc}
   | some r => simpa [finish, hres] using hinv
   | none =>
     cases hst : p.stack with
-    | nil => exact absurd hst (hne hres)
+    | nil => have := hne hres; simp [hst] at this
     | cons v s =>
       have hsw := hinv.stackWF
       rw [hst] at hsw
@@ -592,8 +593,8 @@ theorem TopShape.park_of_selecting {P : Prog} {A : Array Anns} {f : Frame} {k sb
     · exact Or.inl ⟨h1, h2, Or.inl rfl⟩
     · cases h3
 
-theorem ev_wake {P : Prog} {A : Array Anns} {p : Proc} (hinv : Inv P A p) (hpark : p.park = .selecting) :
-    Inv P A { p with park := .none } := by
+theorem ev_wake {P : Prog} {A : Array Anns} {p : Proc} (hinv : Inv P A s0 p) (hpark : p.park = .selecting) :
+    Inv P A s0 ({ p with park := .none }) := by
   cases hfr : p.frames with
   | nil =>
     have := hinv.shape
@@ -604,13 +605,13 @@ theorem ev_wake {P : Prog} {A : Array Anns} {p : Proc} (hinv : Inv P A p) (hpark
     rw [← hfr]
     obtain ⟨hres, sb, htop, hbelow⟩ := hinv.unpack hfr
     rw [hpark] at htop
-    exact Inv.mk' (p := { p with park := .none }) hfr hinv.stackWF hinv.localsWF hinv.selWF
+    exact Inv.intro (p := { p with park := .none }) hfr hinv.stackWF hinv.localsWF hinv.selWF
       (by intro st h; have := hinv.selBound st h; rw [hfr] at this; simpa using this)
       hres htop.park_of_selecting hbelow
 
-theorem ev_deliver {P : Prog} {A : Array Anns} {p : Proc} (hinv : Inv P A p) (m : Val) :
-    Inv P A { p with mailbox := p.mailbox ++ [m],
-                     park := if p.park = .selecting then .none else p.park } := by
+theorem ev_deliver {P : Prog} {A : Array Anns} {p : Proc} (hinv : Inv P A s0 p) (m : Val) :
+    Inv P A s0 (Proc.mk p.pid p.stack p.locals p.frames (p.mailbox ++ [m]) p.persistent p.result
+      p.selectState (if p.park = .selecting then .none else p.park)) := by
   by_cases hpark : p.park = .selecting
   · have := ev_wake hinv hpark
     simp only [hpark, if_true]
@@ -620,8 +621,8 @@ theorem ev_deliver {P : Prog} {A : Array Anns} {p : Proc} (hinv : Inv P A p) (m 
 
 /-- Resuming from `Spawn` / an effect: the pending value is pushed and the counter incremented. -/
 theorem ev_resume {P : Prog} {A : Array Anns} (hA : AllChecked P A) {p : Proc} {v : Val}
-    (hinv : Inv P A p) (hv : v.wf P = true) (hpark : p.park = .spawning ∨ p.park = .effecting) :
-    Inv P A ({ p with stack := v :: p.stack, park := .none }.bump) := by
+    (hinv : Inv P A s0 p) (hv : v.wf P = true) (hpark : p.park = .spawning ∨ p.park = .effecting) :
+    Inv P A s0 ({ p with stack := v :: p.stack, park := .none }.bump) := by
   cases hfr : p.frames with
   | nil =>
     have := hinv.shape
@@ -637,7 +638,7 @@ theorem ev_resume {P : Prog} {A : Array Anns} (hA : AllChecked P A) {p : Proc} {
         (i = .spawn ∨ i = .call) →
         f.localsBase + a.locals ≤ p.locals.length → p.stack.length + 2 = sb + a.height →
         SelNotAt p.selectState rest.length →
-        Inv P A ({ p with stack := v :: p.stack, park := .none }.bump) := by
+        Inv P A s0 ({ p with stack := v :: p.stack, park := .none }.bump) := by
       intro fn a i hat hi hl hs hsel
       obtain ⟨succs, htr, hflow⟩ := hat.transfer hA
       have hsucc : 2 ≤ a.height ∧ succs = [(f.counter + 1, ⟨a.height - 1, a.locals⟩)] := by
@@ -649,7 +650,7 @@ theorem ev_resume {P : Prog} {A : Array Anns} (hA : AllChecked P A) {p : Proc} {
       have htop' := top_of_flow (f := f) (k := rest.length) (sb := sb) (sLen := (v :: p.stack).length)
         (lLen := p.locals.length) (park := Park.none) (sel := p.selectState) hA hat.hfn hat.hcc
         hflow1 (by simp; omega) (by simpa using hl) rfl hsel
-      refine Inv.mk' (f := { f with counter := f.counter + 1 }) (rest := rest) (sb := sb)
+      refine Inv.intro (f := { f with counter := f.counter + 1 }) (rest := rest) (sb := sb)
         (by simp [Proc.bump, hfr]) ?_ ?_ ?_ ?_ ?_ ?_ ?_
       · simpa using ⟨hv, hinv.stackWF⟩
       · simpa using hinv.localsWF
@@ -673,10 +674,10 @@ theorem run_selectDecide {P : Prog} {A : Array Anns} (hA : AllChecked P A) {O : 
     (hsw : AllWF P q.stack) (hlw : AllWF P q.locals) (hsrc : AllWF P st.sources)
     (hsel : q.selectState = some st) (hk : st.frame = rest.length) (hpc : st.instruction = f.counter)
     (hs : q.stack.length + 1 = sb + a.height) (hpark : q.park = .none)
-    (hbelow : Below P A q.selectState rest sb f.localsBase) :
+    (hbelow : Below P A s0 q.selectState rest sb f.localsBase) :
     match selectDecide O P q st with
     | .error e => e.isStructural = false
-    | .ok (p', _) => Inv P A p' := by
+    | .ok (p', _) => Inv P A s0 p' := by
   obtain ⟨succs, htr, hflow⟩ := hat.transfer hA
   obtain ⟨hh, rfl⟩ := transfer_select htr
   have hflow1 := hflow _ (List.mem_cons_self)
@@ -690,7 +691,7 @@ theorem run_selectDecide {P : Prog} {A : Array Anns} (hA : AllChecked P A) {O : 
     have htop := top_of_flow (f := f) (k := rest.length) (sb := sb) (sLen := (v :: q.stack).length)
       (lLen := q.locals.length) (park := q.park) (sel := none) hA hat.hfn hat.hcc
       hflow1 (by simp; omega) (by simpa using hl) hpark (by simp [SelNotAt])
-    refine Inv.mk' (f := { f with counter := f.counter + 1 }) (rest := rest) (sb := sb)
+    refine Inv.intro (f := { f with counter := f.counter + 1 }) (rest := rest) (sb := sb)
       (by simp [Proc.bump, hfr]) ?_ ?_ ?_ ?_ ?_ ?_ ?_
     · simpa using ⟨hv, hsw⟩
     · simpa using hlw
@@ -710,7 +711,7 @@ theorem run_selectDecide {P : Prog} {A : Array Anns} (hA : AllChecked P A) {O : 
         have hsrcw := hsrc.getElem? hsk
         obtain ⟨fn', hfn', hcaps, hcw⟩ := Val.wf_fn_inv hsrcw
         simp only [handleCall, hfn', ok]
-        refine Inv.mk' (f := Frame.new fi q.locals.length caps.toList.length) (rest := f :: rest)
+        refine Inv.intro (f := Frame.new fi q.locals.length caps.toList.length) (rest := f :: rest)
           (sb := q.stack.length) (by simp [hfr]) ?_ ?_ ?_ ?_ hres ?_ ?_
         · exact AllWF.cons_iff.mpr ⟨hmsg, hsw⟩
         · exact AllWF.append_iff.mpr ⟨hlw, hcw⟩
@@ -723,7 +724,7 @@ theorem run_selectDecide {P : Prog} {A : Array Anns} (hA : AllChecked P A) {O : 
       | _ => simp [Err.isStructural]
   | park =>
     simp only [ok]
-    refine Inv.mk' (f := f) (rest := rest) (sb := sb) hfr hsw hlw ?_ ?_ hres ?_ ?_
+    refine Inv.intro (f := f) (rest := rest) (sb := sb) hfr hsw hlw ?_ ?_ hres ?_ ?_
     · simpa using hsrc
     · simp [hk]
     · exact .selecting fn a hat hl _ rfl hk hpc (Or.inl ⟨rfl, hs, Or.inr rfl⟩)
@@ -734,17 +735,17 @@ theorem run_selectDecide {P : Prog} {A : Array Anns} (hA : AllChecked P A) {O : 
 
 theorem run_select {P : Prog} {A : Array Anns} (hA : AllChecked P A) {O : Oracle} (hO : OracleWF P O)
     {p : Proc} {f : Frame} {rest : List Frame} {fn : Function} {a : Ann} {sb : Nat}
-    (hinv : Inv P A p) (hfr : p.frames = f :: rest) (hres : p.result = none)
+    (hinv : Inv P A s0 p) (hfr : p.frames = f :: rest) (hres : p.result = none)
     (hat : FrameAt P A f fn a .select) (hl : f.localsBase + a.locals ≤ p.locals.length)
     (hpark : p.park = .none)
-    (hbelow : Below P A p.selectState rest sb f.localsBase)
+    (hbelow : Below P A s0 p.selectState rest sb f.localsBase)
     (hcase : (p.stack.length = sb + a.height ∧ SelNotAt p.selectState rest.length) ∨
       (∃ st, p.selectState = some st ∧ st.frame = rest.length ∧ st.instruction = f.counter ∧
         ((st.receiving = none ∧ p.stack.length + 1 = sb + a.height) ∨
          (st.receiving.isSome = true ∧ p.stack.length = sb + a.height)))) :
     match handleSelect O P p with
     | .error e => e.isStructural = false
-    | .ok (p', _) => Inv P A p' := by
+    | .ok (p', _) => Inv P A s0 p' := by
   obtain ⟨succs, htr, _⟩ := hat.transfer hA
   obtain ⟨hh, _⟩ := transfer_select htr
   have hcur : p.curCounter = f.counter := by simp [Proc.curCounter, hfr]
@@ -763,19 +764,19 @@ theorem run_select {P : Prog} {A : Array Anns} (hA : AllChecked P A) {O : Oracle
         rw [hstk] at hsw
         obtain ⟨hv, hsw'⟩ := AllWF.cons_iff.mp hsw
         have hslen : s.length + 1 = sb + a.height := by simp [hstk] at hs; omega
-        have hb : Below P A (some (SelectState.mk rest.length f.counter (selectSources v) none))
+        have hb : Below P A s0 (some (SelectState.mk rest.length f.counter (selectSources v) none))
             rest sb f.localsBase := by
           rw [hss] at hbelow
           exact hbelow.change_sel (by simp) (by simp)
         simp only [handleSelect, hss, hstk, hflen, hcur]
         by_cases ht : (pidTargets (selectSources v)).isEmpty
         · simp only [ht, if_true, ok]
-          refine Inv.mk' (f := f) (rest := rest) (sb := sb) hfr hsw' hinv.localsWF ?_ ?_ hres ?_ hb
+          refine Inv.intro (f := f) (rest := rest) (sb := sb) hfr hsw' hinv.localsWF ?_ ?_ hres ?_ hb
           · simpa using selectSources_wf hv
           · simp
           · exact .selecting fn a hat hl _ rfl rfl rfl (Or.inl ⟨rfl, hslen, Or.inl hpark⟩)
         · simp only [ht, Bool.false_eq_true, if_false]
-          refine Inv.mk' (f := f) (rest := rest) (sb := sb) hfr hsw' hinv.localsWF ?_ ?_ hres ?_ hb
+          refine Inv.intro (f := f) (rest := rest) (sb := sb) hfr hsw' hinv.localsWF ?_ ?_ hres ?_ hb
           · simpa using selectSources_wf hv
           · simp
           · exact .selecting fn a hat hl _ rfl rfl rfl (Or.inl ⟨rfl, hslen, Or.inr rfl⟩)
@@ -803,22 +804,22 @@ theorem run_select {P : Prog} {A : Array Anns} (hA : AllChecked P A) {O : Oracle
 theorem lift_res {P : Prog} {A : Array Anns} {r : Res}
     (h : match r with
       | .error e => e.isStructural = false
-      | .ok (p', _) => Inv P A p') :
+      | .ok (p', _) => Inv P A s0 p') :
     match (some r : Option Res) with
     | none => True
     | some (.error e) => e.isStructural = false
-    | some (.ok (p', _)) => Inv P A p' := by
+    | some (.ok (p', _)) => Inv P A s0 p' := by
   cases r with
   | error e => exact h
   | ok x => exact h
 
 /-- **One transition preserves the invariant and does not fail structurally.** -/
 theorem inv_step {P : Prog} {A : Array Anns} (hA : AllChecked P A) {p : Proc} {ev : Event}
-    (hinv : Inv P A p) (hev : EventWF P ev) :
+    (hinv : Inv P A s0 p) (hev : EventWF P ev) :
     match transition P p ev with
     | none => True
     | some (.error e) => e.isStructural = false
-    | some (.ok (p', _)) => Inv P A p' := by
+    | some (.ok (p', _)) => Inv P A s0 p' := by
   cases ev with
   | run O =>
     have hO : OracleWF P O := hev
@@ -880,10 +881,10 @@ theorem inv_step {P : Prog} {A : Array Anns} (hA : AllChecked P A) {p : Proc} {e
 
 /-- **Soundness of the checker (full statement).** -/
 theorem checkAnn_sound_full {P : Prog} {A : Array Anns} (hA : AllChecked P A) {p0 p : Proc}
-    (h0 : EntryWF P p0) (hr : ReachWF P p0 p) :
-    Inv P A p ∧
+    (h0 : EntryWF P s0 p0) (hr : ReachWF P p0 p) :
+    Inv P A s0 p ∧
     ∀ ev, EventWF P ev → ∀ e, transition P p ev = some (.error e) → e.isStructural = false := by
-  have hinv : Inv P A p := by
+  have hinv : Inv P A s0 p := by
     induction hr with
     | refl => exact inv_entry hA h0
     | step _ hev htr ih =>
